@@ -8,10 +8,10 @@
    `{...}` chunk and at the end.  Bytes are read as `u8 as char`, so "whitespace" is the
    Latin-1 reading of char::is_whitespace (9..13, 32, 0x85, 0xA0).
 
-   Two behaviours of the shipped parser are switches of the model (GenTemplate.v reads which
-   one the source has): a literal whose token is Owned (it contained an escape sequence) is
-   never a template, and only literals containing `{` are templates (so `}}` stays `}}`
-   in a literal without `{`). *)
+   Two behaviours of the parser are switches of the model (GenTemplate.v reads which one the
+   source has): a literal whose token is Owned (it contained an escape sequence) was never a
+   template in the shipped parser (repaired by 67a56e3), and only literals containing `{` are
+   templates (so `}}` stays `}}` in a literal without `{`; as coded, see literal_reading). *)
 From Coq Require Import ZArith List Bool.
 Import ListNotations.
 Open Scope Z_scope.
@@ -151,6 +151,15 @@ Definition template_reading (s : bytes) : list item := reading (S (length s)) s.
 Definition flat_seg (g : tseg) : list item :=
   match g with TSLit t => map IChar t | TSVar n => [IVar n] end.
 Definition flat (segs : list tseg) : list item := flat_map flat_seg segs.
+
+(* A literal is a template only when it contains `{` ("interpolate with braces" is all the
+   documentation says; `{{` and `}}` are documented nowhere, the test-suite pins `{{x}}`): in a
+   literal without `{` nothing is special, so `}}` stays `}}` there.  As coded, not a defect. *)
+Definition literal_reading (s : bytes) : list item :=
+  if has_byte LB s then template_reading s else map IChar s.
+
+(* the parser after commit 67a56e3 (a literal with an escape sequence is a template like any other) *)
+Definition current : variant := {| v_owned_static := false; v_open_brace_gate := true |}.
 
 Definition parts_items (p : sparts) : list item :=
   match p with SStatic s => map IChar s | SInterp segs => flat segs end.
